@@ -106,10 +106,21 @@ func c13StopScenario(sp c14Spec) *explore.Scenario {
 				ti, ops := ti, ops
 				vsched.Go(fmt.Sprintf("client%d", ti), func() {
 					var rs []string
+					me := vsched.TaskName()
 					for _, o := range ops {
+						before := len(st.fs.Handles)
 						r := applyOp(ctx, st.sess, o)
 						if r.OK() {
 							rs = append(rs, o.Kind+":ok")
+							// an attach, walk or create that reports success has
+							// bound the entry the file system handed to it
+							if o.Kind == "attach" || o.Kind == "walk" || o.Kind == "create" {
+								for _, h := range st.fs.Handles[before:] {
+									if h.Creator == me && !h.Dummy {
+										st.bound[h] = true
+									}
+								}
+							}
 						} else {
 							rs = append(rs, o.Kind+":"+firstWords(r.Err))
 						}
@@ -170,7 +181,7 @@ func c13StopScenario(sp c14Spec) *explore.Scenario {
 				}
 				rel = append(rel, fmt.Sprintf("#%d:%d", h.ID, h.Released))
 				if st.bound[h] && h.Released != 1 {
-					bad("after-stop", "entry #%d (%s), bound to a fid when the race began, has been released %d times after Stop and every operation returned (must be exactly once)", h.ID, h.PathStr, h.Released)
+					bad("after-stop", "entry #%d (%s), bound to a fid (when the race began, or by an operation that reported success), has been released %d times after Stop and every operation returned (must be exactly once)", h.ID, h.PathStr, h.Released)
 				}
 			}
 			rs := append([]string{}, st.results...)
